@@ -20,7 +20,9 @@ class Module:
         except OSError as e:
             raise AnalysisError("anchor file missing: %s (%s)" % (rel, e))
         try:
-            self.tree = ast.parse(self.source, filename=rel)
+            from .normal import canonical
+
+            self.tree = canonical(ast.parse(self.source, filename=rel))
         except SyntaxError as e:
             raise AnalysisError("cannot parse %s: %s" % (rel, e))
         self.functions = {}  # qualified name -> FunctionDef
